@@ -93,12 +93,14 @@ fn match_scenario() -> BoxedStrategy<Spec> {
         proptest::option::weighted(0.5, prefix()),
         relpath(),
         0usize..3,
-        0u8..10,
+        0u8..12,
         0u8..3,
         any::<bool>(),
         any::<bool>(),
+        // cardinality tail: the item records many further (vendored) files, allowed by a rule of their own
+        prop_oneof![12 => Just(0usize), 1 => prop_oneof![Just(15usize), Just(16), Just(17), Just(32), Just(33), Just(64), Just(300)]],
     )
-        .prop_map(|(src, dst, q, dig, kind, pat, own_products, with_products)| {
+        .prop_map(|(src, dst, q, dig, kind, pat, own_products, with_products, many)| {
             let d: Digests = [("sha256".to_string(), DIGEST_POOL_256[dig].to_string())].into();
             let d_other: Digests = [("sha256".to_string(), DIGEST_POOL_256[(dig + 1) % 3].to_string())].into();
             let join = |pre: &Option<String>, rest: &str| match pre {
@@ -119,6 +121,9 @@ fn match_scenario() -> BoxedStrategy<Spec> {
                 5 => (join(&src, &q), join(&dst, &q), d.clone(), false, "s1"),
                 6 => (join(&src, &q), join(&dst, &q), d.clone(), true, "s2"),
                 7 => (join(&src, &format!("{}.other", q)), join(&dst, &format!("{}.other", q)), d.clone(), true, "s1"),
+                // the destination artifact lies outside the destination prefix altogether / under the doubled prefix
+                10 => (join(&src, &q), q.clone(), d.clone(), true, "s1"),
+                11 => (join(&src, &q), join(&dst, &join(&dst, &q)), d.clone(), true, "s1"),
                 _ => (join(&src, &q), glue(&dst, &q), d.clone(), true, "s1"),
             };
             let pattern = match pat {
@@ -131,7 +136,10 @@ fn match_scenario() -> BoxedStrategy<Spec> {
                     c.into_iter().collect()
                 }
             };
-            let own: Artifacts = [(own_path, d.clone())].into();
+            let mut own: Artifacts = [(own_path, d.clone())].into();
+            for i in 0..many {
+                own.insert(format!("vendor/dep{:03}", i), d_other.clone());
+            }
             let dest: Artifacts = [(dest_path, dest_digest)].into();
             let side_products = if dest_on_right_side { with_products } else { !with_products };
             let mk = |name: &str| {
@@ -145,10 +153,11 @@ fn match_scenario() -> BoxedStrategy<Spec> {
                     (name.to_string(), Artifacts::new(), Artifacts::new())
                 }
             };
-            let rules = vec![
-                RuleSpec::Match { pattern, in_src: src.clone(), products: with_products, in_dst: dst.clone(), from: "s1".into() },
-                RuleSpec::Disallow("*".into()),
-            ];
+            let mut rules = vec![RuleSpec::Match { pattern, in_src: src.clone(), products: with_products, in_dst: dst.clone(), from: "s1".into() }];
+            if many > 0 {
+                rules.push(RuleSpec::Allow("vendor/*".into()));
+            }
+            rules.push(RuleSpec::Disallow("*".into()));
             Spec {
                 inspection: false,
                 name: "item".into(),
